@@ -23,6 +23,7 @@ type File struct {
 	atEOF  bool
 	isDir  bool
 	isPipe bool
+	errReads int
 	stat   StreamStat
 	closed bool
 	// write side
@@ -245,6 +246,17 @@ func (f *File) Read(p []byte) (int, error) {
 		return 0, nil
 	}
 	f.stat.Reads++
+	if f.plan.ErrNo != "" && f.off >= f.plan.ErrAfter {
+		if f.errReads == 0 {
+			journal.Faults = append(journal.Faults, "read:"+f.plan.ErrNo+":"+f.name)
+		}
+		f.errReads++
+		if f.errReads > EOFSpinLimit {
+			journal.Note = "error-spin on " + f.name
+			finish("eof-spin", ExitEOFSpin)
+		}
+		return 0, &fs.PathError{Op: "read", Path: f.name, Err: errnoOf(f.plan.ErrNo)}
+	}
 	remaining := len(f.data) - f.off
 	if remaining == 0 {
 		f.stat.EOFReads++
@@ -275,6 +287,9 @@ func (f *File) Read(p []byte) (int, error) {
 	n := want
 	if n > remaining {
 		n = remaining
+	}
+	if f.plan.ErrNo != "" && f.off+n > f.plan.ErrAfter {
+		n = f.plan.ErrAfter - f.off
 	}
 	if n < len(p) && n < remaining {
 		f.stat.ShortReads++
